@@ -126,7 +126,15 @@ type IfaceDecl struct {
 	Impls []string
 }
 
+// FrameSet: a named list of "modifies * except" items, written once (//@ frameset name = item; item; ...) in the package whose
+// scope can name the types, and usable from every package's contracts as "set name".
+type FrameSet struct {
+	PkgPath string
+	Items   []string
+}
+
 type Contracts struct {
+	FrameSets map[string]*FrameSet
 	Funcs  map[string]*Contract
 	Specs  map[string]*SpecFn
 	Lemmas []*Lemma
@@ -301,6 +309,21 @@ func ParseContracts(P *Program) (*Contracts, error) {
 				C.Funcs[name] = cur
 				C.Order = append(C.Order, name)
 				curLoop, curHook, curLemma = nil, nil, nil
+			case "frameset":
+				i := strings.Index(rest, "=")
+				if i < 0 {
+					return nil, fmt.Errorf("%s: bad frameset (want: frameset name = item; item)", pos)
+				}
+				fs := &FrameSet{PkgPath: pkgPath}
+				for _, it := range strings.Split(rest[i+1:], ";") {
+					if it = strings.TrimSpace(it); it != "" {
+						fs.Items = append(fs.Items, it)
+					}
+				}
+				if C.FrameSets == nil {
+					C.FrameSets = map[string]*FrameSet{}
+				}
+				C.FrameSets[strings.TrimSpace(rest[:i])] = fs
 			case "lemma":
 				// lemma name(p T, q U)
 				i := strings.Index(rest, "(")
